@@ -33,6 +33,7 @@ class Parser(Emitter):
             if self.debug:
                 traceback.print_exc()
             error = str(formulaserror.from_message(e))
+            e.__traceback__ = None
 
         if isinstance(result, formulaserror.XLError):
             error = str(result)
